@@ -106,6 +106,13 @@ func recacheAggregatorContext(ctx sdk.Context, agc *aggregator.AggregatorContext
 		p = recentParamsMap[prev]
 		agc.SetParams(p)
 		setCommonParams(p)
+		// no block is replayed, but the rounds still have to be rebuilt as the EndBlock of the last
+		// committed block left them: rounds alive before it were sealed (forcibly when the validator
+		// set changed in that block) and the rounds starting at that block were opened
+		agc.PrepareRoundEndBlock(uint64(to - 2))
+		// #nosec G115
+		agc.SealRound(ctx.WithBlockHeight(to-1), int64(h.Block) == to-1)
+		agc.PrepareRoundEndBlock(uint64(to - 1))
 	} else {
 		prev := int64(0)
 		for ; from < to; from++ {
